@@ -148,6 +148,40 @@ def r11_no_memory_of_earlier_traffic(ck, cx, rule='R11'):
     ck.floor(rule, n, 14, 'front-end methods examined')
 
 
+def r12_same_fate_after_a_framer_fault(ck, cx, rule='R12'):
+    """What happens to a stream connection when the framer cannot digest what it was given is part of the observable behaviour: the
+    reference front-end ends the connection (its handler clears `running`); the Twisted one lets the exception reach the reactor,
+    which drops the connection (C12 assumption, cross-checked against the installed Twisted in the thorough tier).  A stream
+    front-end that catches the fault and carries on serves requests its siblings never see."""
+    ck.rule(rule, 'after an exception from framer.processIncomingPacket every stream front-end does what the reference does: the connection ends (handler stops the loop, or the exception leaves the receive callback); none resets and carries on')
+    n = 0
+    fate = {}
+    where = {}
+    for fe in FRONTENDS:
+        if fe[5] != 'stream' or fe[0] == 'sync-single':
+            continue        # the serial handler has no connection to end: it resets the framer and keeps listening on the line (C11 R4)
+        cls, f, rps = recv_paths(cx, fe)
+        ck.saw('functions', f.qn)
+        outs = set()
+        for rp in rps:
+            if not (rp.raised and 'processIncomingPacket' in rp.raised[1]):
+                continue
+            n += 1
+            escapes = bool(rp.exit and rp.exit[0] == 'exc')
+            outs.add('ends' if (escapes or rp.stops) else 'continues')
+        fate[fe[0]] = outs
+        where[fe[0]] = f
+    ref = fate.get(REFERENCE, set())
+    for name, outs in sorted(fate.items()):
+        if name == REFERENCE or not outs:
+            continue
+        ck.ob(rule, where[name].qn, '%s: fate of the connection after a framer fault = %s (reference)' % (name, sorted(ref)), outs == ref or not ref,
+              detail='after-framer-fault %s vs %s' % (sorted(outs), sorted(ref)), loc=cx.floc(where[name]),
+              message='%s: after an exception from the framer the connection %s, on %s it %s: the same byte stream is answered differently (requests that follow '
+                      'the undigestible bytes are served by one front-end and never seen by the other)' % (name, '/'.join(sorted(outs)), REFERENCE, '/'.join(sorted(ref))))
+    ck.floor(rule, n, 2, 'framer-fault paths of the connection-oriented front-ends')
+
+
 def r8_handler_bound_to_its_server(ck, cx, rule='R8'):
     """asyncio front-end: the event loop creates one protocol object per connection (per endpoint for datagrams) by calling the
     factory it was given WITHOUT arguments.  The handler reads everything it serves from `self.server` (context, unit list,
@@ -313,4 +347,5 @@ def run(ck, tier):
     from .c09 import r13_listen_only_stays_unsendable
     ck.guard(r13_listen_only_stays_unsendable, ck, cx, 'R10')
     ck.guard(r11_no_memory_of_earlier_traffic, ck, cx)
+    ck.guard(r12_same_fate_after_a_framer_fault, ck, cx)
     return cx.idx
